@@ -47,6 +47,7 @@ def Op.ok (s : St) : Op → Prop
   | .replaceList os => os.Nodup
   | .replaceDict kvs => ((Dict.updateAll [] kvs).map (·.2)).Nodup
   | .assign _ => s.checkOnSet = true ∨ s.names = []
+  | .inherited => True
 
 instance (s : St) (op : Op) : Decidable (Op.ok s op) := by
   cases op <;> unfold Op.ok <;> exact inferInstance
@@ -352,6 +353,7 @@ theorem step_preserves_inv (hstr : ∀ a b, str a = str b → a = b) (s : St) (o
         rw [List.nodup_append]
         refine ⟨hnd, by simp, ?_⟩
         intro a ha b hb; simp at hb; subst hb; intro e; subst e; exact hv ha
+  | inherited => exact ⟨hnd, hn⟩
 
 /-- **C18 (all histories).**  After *any* sequence of style-consistent
 mutations and value assignments the Selector is consistent. -/
@@ -596,7 +598,7 @@ theorem declared_dict_inv (d : Dict) (c : Bool) (hk : (d.map (·.1)).Nodup) (hv 
 raises exactly one `objects` notification, a failing one none, and a value
 assignment none. -/
 theorem one_notification_per_mutation (s : St) (op : Op) :
-    ((step str s op).2.err = none → (∀ v, op ≠ .assign v) →
+    ((step str s op).2.err = none → (∀ v, op ≠ .assign v) → op ≠ .inherited →
       (∀ k d, op = .popKeyD k d → Dict.get? s.names k ≠ none) → (step str s op).2.notifs.length = 1) ∧
     ((step str s op).2.err ≠ none → (step str s op).2.notifs = []) ∧
     (∀ v, op = .assign v → (step str s op).2.notifs = []) := by
@@ -646,6 +648,25 @@ The property itself makes no such exception ("… interleaved with value assignm
 statement without it — and the witness that it is false of the model (and, replayed by the harness,
 of the library: KNOWN_FINDINGS `nonchecking-assign-leaves-object-unnamed`).  `run_preserves_inv`
 above is the part that holds. -/
+
+/-- The `list` mutators `ListProxy` inherits without overriding (`reverse`, `sort`, `del objects[i]`,
+`objects += [..]`, `objects *= n`) are not among the mutations the property lists.  Called on `p.objects`
+they act on the throw-away proxy (`objects` builds a fresh `ListProxy(self._objects, self)` on every read),
+so the Parameter keeps its objects, its names, and nobody is notified: the four views cannot drift apart
+through them.  (A change that made one of them write through to `_objects` alone would break the
+correspondence at the first such call on a dict-declared Selector.) -/
+theorem inherited_list_methods_do_not_write_through (s : St) :
+    step str s .inherited = (s, {}) ∧
+    listView (step str s .inherited).1 = listView s ∧
+    itemsView str (step str s .inherited).1 = itemsView str s ∧
+    rangeView str (step str s .inherited).1 = rangeView str s ∧
+    (∀ v, accepts (step str s .inherited).1 v = accepts s v) := by
+  simp [step]
+
+/-- non-vacuity: a dict-declared Selector keeps both stores through an inherited mutator between two
+write-through ones -/
+example : (run pyStr { objs := [1, 2], names := [("a", 1), ("b", 2)] } [.popKey "a", .inherited, .setKey "c" 3]).names
+    = [("b", 2), ("c", 3)] := by decide +kernel
 
 /-- style-consistency as the property words it: every value assignment is allowed -/
 def Op.okFull (s : St) : Op → Prop
